@@ -49,8 +49,8 @@ def handleItems (toks : List String) : String :=
   let arr : Array (Option BItem) := items.foldl (fun a it => a.set! it.id (some it)) (Array.replicate (maxId + 1) none)
   let lookup : Nat → Option BItem := fun i => (arr.getD i none)
   let blocked := (items.filter (isBlocklisted o)).map (·.id)
-  let opaque := (items.filter (fun it => isOpaque o lookup items.length it)).map (·.id)
-  "blocked=" ++ idsToString blocked ++ " opaque=" ++ idsToString opaque
+  let opq := (items.filter (fun it => isOpaque o lookup items.length it)).map (·.id)
+  "blocked=" ++ idsToString blocked ++ " opaque=" ++ idsToString opq
 
 def handle (toks : List String) : String :=
   match toks with
